@@ -91,17 +91,16 @@ def main(argv=None):
         print("no harness for %s: %s" % (pid, e))
         return 2
 
+    replay_rec = None
     if a.replay:
-        rec = json.load(open(a.replay))
-        ok, detail = mod.replay(rec)
-        print("replay %s: %s" % (a.replay, detail))
-        if ok:
-            print("VIOLATION property=%s replay=%s" % (pid, a.replay))
-            return 1
-        print("not reproduced")
-        return 0
-
+        replay_rec = json.load(open(a.replay))
     jobs = mod.items(a.tier, seed)
+    if replay_rec is not None:
+        # generic replay: re-run the work item with every input pinned to the recorded counterexample
+        prm = dict(replay_rec.get("params") or {})
+        prm["__pins__"] = replay_rec["raw"]
+        jobs = [(replay_rec["item"], prm)]
+        a.no_evidence = True
     if a.only:
         jobs = [j for j in jobs if fnmatch.fnmatch(j[0], a.only)]
     jobs = list(jobs)
@@ -139,7 +138,8 @@ def main(argv=None):
         path = os.path.join(VERIF, "replays", "%s-%s.json" % (pid, h))
         rec = dict(v)
         rec["property"] = pid
-        rec["params"] = next((p for (nm, p) in jobs if nm == v["item"]), None)
+        rec["params"] = {k: x for k, x in (next((p for (nm, p) in jobs if nm == v["item"]), None) or {}).items()
+                         if k != "__pins__"}
         json.dump(rec, open(path, "w"), indent=1)
         vio_lines.append("VIOLATION property=%s replay=%s" % (pid, path))
 
@@ -202,6 +202,9 @@ def main(argv=None):
     print("%s %s: items=%d paths=%d obligations=%d discharged=%d validated=%d solver=%.1fs wall=%.1fs" % (
         pid, a.tier, len(results), paths, obligations, discharged, ev["coverage"]["traces_validated_against_impl"],
         ev["coverage"]["solver_s"], wall))
+    if replay_rec is not None and not violations:
+        print("replay %s: not reproduced (%s)" % (a.replay, "; ".join(r.get("error", "ok")[:200] for r in results)))
+        return 0 if not errors else 2
     if violations:
         for v, line in zip(violations, vio_lines):
             print("  counterexample %s/%s: %s -- %s" % (v["item"], v["label"], json.dumps(v["inputs"])[:300],
